@@ -126,7 +126,9 @@ func (sc *specCtx) eval(e SpecExpr) Value {
 				}
 			}
 			if mentions {
-				hyps = append(hyps, t)
+				// type and heap facts (machine ranges, references <= clock) hold for every value
+				// of the bound variables: assume them universally instead of guarding the body
+				savedSt.assume(Forall(vars, t))
 			} else {
 				savedSt.assume(t)
 			}
